@@ -27,7 +27,7 @@ PROP = {'lean': 'MpsProps.C18',
                'Mps.C18.gen_alone_and_newPool',
                'Mps.C18.gen_yield_points'],
  'suites': [{'name': 'pool', 'quick': 150, 'thorough': 3000}],
- 'propfields': {'pool': ['ok', 'results', 'returned', 'searchLen', 'searchNonNil']},
+ 'propfields': {'pool': ['ok', 'results', 'returned', 'searchLen', 'searchNonNil', 'overlap', 'distinct', 'fromStream']},
  'level_text': 'Proof: the pool is modelled as a transition system (caller + W workers, program counters at every channel send/receive, atomic '
                'counter operation and result write; a rendezvous on an unbuffered channel is one step). For the handshake that is in /repo after '
                'the repair (one notification per command, sent after the last result write; the caller counts notifications) Lean proves, for '
@@ -41,7 +41,7 @@ PROP = {'lean': 'MpsProps.C18',
                'consecutive calls on one pool: every observed arrival trace must be a path of the Lean transition system with the model program '
                'counters matching, the returned slice must be the model\'s, and the idle workers measured by W blocking probe commands must be W. '
                'A hook-free stress run (8 workers x 8 instant tasks x 30 000 calls, watchdog) is a second detector.',
- 'level_note': 'The Go memory model and scheduler are not modelled: the granularity of the interleaving semantics (sequentially consistent '
+ 'level_note': 'Op primesearch (sampled, not proved): sample.Paillier over 2/4/8 workers on a deterministic, non-concurrency-safe stream of safe primes must show no overlapping Read calls and use two different blocks (the one pool.LockedReader of the call). The Go memory model and scheduler are not modelled: the granularity of the interleaving semantics (sequentially consistent '
                'atomics, channel rendezvous as one step, result write before/after the notification) is the model\'s; the tie is the extracted '
                'skeleton plus the hook-driven correspondence. Search termination is relative to the oracle (number of nil answers is the fuel). '
                'For pool.go as it stood before the repair the same statements are false: lost_worker_witness / search_nil_result_witness are '
